@@ -6,6 +6,8 @@ cd "$(dirname "$0")" || exit 1
 export CARGO_NET_OFFLINE=true
 [ -f sim/Cargo.lock ] || cp /repo/Cargo.lock sim/Cargo.lock
 ( cd sim && cargo build --release --offline ) || exit 1
+[ -f sim05/Cargo.lock ] || cp /repo/Cargo.lock sim05/Cargo.lock
+( cd sim05 && cargo build --release --offline --target-dir ../sim/target ) || exit 1
 [ -f sim16/Cargo.lock ] || cp /repo/Cargo.lock sim16/Cargo.lock
 ( cd sim16 && cargo build --release --offline --target-dir ../sim/target ) || exit 1
 ( cd /repo && cargo rustc --offline --lib --features python --crate-type cdylib --target-dir /verif/sim_py/target ) || exit 1
